@@ -2721,6 +2721,10 @@ static void struct_members(Token **rest, Token *tok, Type *ty) {
     // Anonymous struct member
     if ((basety->kind == TY_STRUCT || basety->kind == TY_UNION) &&
         consume(&tok, tok, ";")) {
+      // 'struct T;' with an incomplete type only declares the tag.
+      if (basety->size < 0)
+        continue;
+
       Member *mem = calloc(1, sizeof(Member));
       mem->ty = basety;
       mem->idx = idx++;
